@@ -1052,6 +1052,7 @@ class TokenizerCore:
                 base = 2
             elif token_type == TokenType.HEREDOC_STRING:
                 heredoc_line, heredoc_col = self._line, self._col
+                heredoc_current = self._current
                 self._advance()
 
                 if self._char == end:
@@ -1068,10 +1069,8 @@ class TokenizerCore:
                     and self.heredoc_tag_is_identifier
                     and (self._end or tag.isdigit() or any(c.isspace() for c in tag))
                 ):
-                    if not self._end:
-                        self._advance(-1)
-
-                    self._advance(-len(tag))
+                    # Go back to the opener (the tag may or may not have been closed at the end of the input)
+                    self._advance(heredoc_current - self._current)
                     # Rewinding does not undo line breaks counted while looking for the tag
                     self._line, self._col = heredoc_line, heredoc_col
                     self._add(self.heredoc_string_alternative)
